@@ -171,10 +171,54 @@ def r10_1(ctx) -> None:
     eq = info.methods.get("__eq__")
     hs = info.methods.get("__hash__")
     init = info.methods.get("__init__")
-    eq_ok = eq is not None and any(
-        isinstance(n, ast.Compare) and isinstance(n.ops[0], ast.Eq) and norm(n.left) == "self.values"
-        and norm(n.comparators[0]).endswith(".values") for n in own_nodes(eq.node))
-    ctx.check(eq_ok, "R10.1", eq or "CallKey", "CallKey.__eq__", "keys are equal iff their value tuples are equal (==)")
+    # __eq__ as a table: same type & equal values -> True; same type & different values -> False;
+    # another type -> False (an `or` for the `and`, or a dropped type test, fails a cell)
+    if eq is None:
+        ctx.fail("R10.1", "CallKey", "CallKey.__eq__", "CallKey defines no __eq__: keys of equal calls never match")
+    else:
+        me, other = eq.param_names()[:2]
+        vfield = None
+        if init is not None:
+            ip = init.param_names()
+            for st in own_nodes(init.node):
+                tg = st.targets[0] if isinstance(st, ast.Assign) else st.target if isinstance(st, ast.AnnAssign) else None
+                if isinstance(tg, ast.Attribute) and isinstance(getattr(st, "value", None), ast.Name) and len(ip) > 1 and st.value.id == ip[1]:
+                    vfield = tg.attr
+        for same_type in (True, False):
+            for same_values in (True, False):
+                ctx.count("callkey_eq_cells")
+
+                class _EqOps:
+                    def attr(self, value, name, node, env):
+                        if value in ("A", "B") and name == vfield:
+                            return ("values", value)
+                        return UNKNOWN
+
+                    def call(self, func, args, kwargs, node, env):
+                        if func == "type" and args and args[0] in ("A", "B"):
+                            return ("type", "T1" if args[0] == "A" or same_type else "T2")
+                        if func == "isinstance" and len(args) == 2 and args[0] == "B":
+                            return same_type
+                        return UNKNOWN
+
+                    def compare(self, op, left, right, env):
+                        if isinstance(left, tuple) and isinstance(right, tuple) and left[:1] == right[:1] == ("values",):
+                            eqv = same_values or left == right
+                            return eqv if op == "Eq" else (not eqv) if op == "NotEq" else UNKNOWN
+                        if isinstance(left, tuple) and isinstance(right, tuple) and left[:1] == right[:1] == ("type",):
+                            return (left == right) if op in ("Is", "Eq") else (left != right) if op in ("IsNot", "NotEq") else UNKNOWN
+                        return UNKNOWN
+
+                outs = absint.Machine(cfg_of(eq), _EqOps()).run({me: "A", other: "B"})
+                got = {oc.returned if oc.terminal.kind == "exit" else "raises" for oc in outs}
+                want = same_type and same_values
+                # for a foreign type the values may be unknown: only the decision matters
+                got = {bool(g) if isinstance(g, bool) else g for g in got}
+                ctx.check(got == {want} or (not same_type and got <= {False, "NotImplemented"} and got),
+                          "R10.1", eq, "CallKey.__eq__",
+                          f"[{'same' if same_type else 'other'} type, {'equal' if same_values else 'different'} values] "
+                          f"keys compare {'equal' if want else 'unequal'}: two keys are equal iff both are call keys with equal value tuples",
+                          witness=f"evaluated {sorted(map(str, got))}")
     hash_ok = init is not None and hs is not None and any(
         isinstance(n, ast.Call) and norm(n.func) == "hash" and n.args and norm(n.args[0]) == init.param_names()[1]
         for n in own_nodes(init.node))
